@@ -61,7 +61,7 @@ std::string SimFS::path_of(int ino) const {
 	return p;
 }
 
-SimFS::Res SimFS::resolve(const std::string &path, bool follow_final, int depth) {
+SimFS::Res SimFS::resolve(const std::string &path, bool follow_final, int depth, bool slash_follows) {
 	Res r;
 	if (path.empty()) { r.err = ENOENT; return r; }
 	if (path.size() > 4095) { r.err = ENAMETOOLONG; return r; }
@@ -102,7 +102,7 @@ SimFS::Res SimFS::resolve(const std::string &path, bool follow_final, int depth)
 			return r;
 		}
 		int child = it->second;
-		if (nodes[child].type == 'l' && (!last || follow_final)) {
+		if (nodes[child].type == 'l' && (!last || follow_final || (slash_follows && trailing))) {
 			// follow: resolve the target relative to cur
 			const std::string &t = nodes[child].target;
 			if (t.empty()) { r.err = ENOENT; return r; }
@@ -118,6 +118,8 @@ SimFS::Res SimFS::resolve(const std::string &path, bool follow_final, int depth)
 				return r;
 			}
 			child = s.ino;
+			// a link target ending in '/' must lead to a directory
+			if (s.trailing_slash && nodes[child].type != 'd') { r.err = ENOTDIR; return r; }
 			if (last) { r.parent = s.parent; r.ino = child; r.name = s.name; return r; }
 			cur = child;
 			continue;
@@ -226,7 +228,7 @@ int SimFS::sys_stat(const std::string &p, SimStat &st, int &err, bool follow) {
 	FsLog l; l.op = follow ? "stat" : "lstat"; l.path = p;
 	err = check_fault(l.op);
 	if (!err) {
-		Res r = resolve(p, follow);
+		Res r = resolve(p, follow, 0, true);
 		err = r.err;
 		if (!err && r.ino < 0) err = ENOENT;
 		if (!err && r.trailing_slash && nodes[r.ino].type != 'd') err = ENOTDIR;
@@ -251,7 +253,7 @@ int SimFS::sys_mkdir(const std::string &p, int mode, int &err) {
 		if (!err) {
 			int n = new_node('d');
 			Inode &par = nodes[r.parent];
-			nodes[n].mode = mode & ~umask_ & 0777;
+			nodes[n].mode = mode & ~umask_ & 01777;
 			nodes[n].uid = euid;
 			nodes[n].gid = egid;
 			if (par.mode & 02000) { nodes[n].gid = par.gid; nodes[n].mode |= 02000; }
@@ -274,8 +276,24 @@ int SimFS::sys_open(const std::string &p, int flags, int mode, int &ino, int &er
 	ino = -1;
 	err = check_fault("open");
 	if (!err) {
-		Res r = resolve(p, !(excl || (flags & O_NOFOLLOW)));
-		err = r.err;
+		Res r;
+		bool slash = !p.empty() && p.back() == '/';
+		if (creat && slash) {
+			// Linux: O_CREAT on a path ending in '/' is EISDIR once the parent has been walked,
+			// before the last component is looked at more closely
+			r = resolve(p, false);
+			err = r.err;
+			if (!err && r.name != "." && r.name != ".." && !r.name.empty()) err = EISDIR;
+		}
+		if (!err && creat && !excl) {
+			// a final symlink whose target ends in '/' gives EISDIR as well
+			Res q = resolve(p, false);
+			if (!q.err && q.ino >= 0 && nodes[q.ino].type == 'l' && !nodes[q.ino].target.empty() && nodes[q.ino].target.back() == '/') err = EISDIR;
+		}
+		if (!err) {
+			r = resolve(p, !(excl || (flags & O_NOFOLLOW)));
+			err = r.err;
+		}
 		l.parent = r.parent; l.name = r.name; l.ino = r.ino;
 		if (!err && r.ino >= 0) {
 			Inode &n = nodes[r.ino];
@@ -339,13 +357,13 @@ int SimFS::sys_unlink(const std::string &p, int &err) {
 		Res r = resolve(p, false);
 		err = r.err;
 		l.parent = r.parent; l.name = r.name; l.ino = r.ino;
-		if (!err && r.ino < 0) err = ENOENT;
 		if (!err && (r.name == "." || r.name == ".." || r.name.empty())) err = EISDIR;
-		if (!err && nodes[r.ino].type == 'd') err = EISDIR;
-		if (!err && r.trailing_slash) err = ENOTDIR;
+		if (!err && r.ino < 0) err = ENOENT;
+		if (!err && r.trailing_slash) err = nodes[r.ino].type == 'd' ? EISDIR : ENOTDIR;
 		if (!err && !may(nodes[r.parent], 3)) err = EACCES;
 		if (!err && (nodes[r.parent].mode & 01000) && euid != 0 && euid != nodes[r.parent].uid
 		    && euid != nodes[r.ino].uid) err = EPERM;
+		if (!err && nodes[r.ino].type == 'd') err = EISDIR;
 		if (!err) {
 			nodes[r.parent].ents.erase(r.name);
 			nodes[r.ino].alive = false;
@@ -365,14 +383,14 @@ int SimFS::sys_rmdir(const std::string &p, int &err) {
 		Res r = resolve(p, false);
 		err = r.err;
 		l.parent = r.parent; l.name = r.name; l.ino = r.ino;
-		if (!err && r.ino < 0) err = ENOENT;
 		if (!err && r.name == ".") err = EINVAL;
 		if (!err && r.name == "..") err = ENOTEMPTY;
-		if (!err && nodes[r.ino].type != 'd') err = ENOTDIR;
 		if (!err && r.ino == root) err = EBUSY;
+		if (!err && r.ino < 0) err = ENOENT;
 		if (!err && !may(nodes[r.parent], 3)) err = EACCES;
 		if (!err && (nodes[r.parent].mode & 01000) && euid != 0 && euid != nodes[r.parent].uid
 		    && euid != nodes[r.ino].uid) err = EPERM;
+		if (!err && nodes[r.ino].type != 'd') err = ENOTDIR;
 		if (!err && !nodes[r.ino].ents.empty()) err = ENOTEMPTY;
 		if (!err) {
 			nodes[r.parent].ents.erase(r.name);
@@ -535,6 +553,11 @@ int SimFS::sys_write(int ino, size_t off, const uint8_t *buf, size_t n, int &err
 	Bytes &d = nodes[ino].data;
 	if (d.size() < off + n) d.resize(off + n, 0);
 	memcpy(d.data() + off, buf, n);
+	if (euid != 0 && n > 0) {
+		// an unprivileged write drops set-id bits (file_remove_privs)
+		nodes[ino].mode &= ~04000;
+		if (nodes[ino].mode & 0010) nodes[ino].mode &= ~02000;
+	}
 	nodes[ino].mtime = (int64_t) tick();
 	nodes[ino].gen++;
 	record(l);
